@@ -126,9 +126,11 @@ class ForgivingFactorBits(ForgivingFactor):
         is_softmax = layer.activation == "softmax"
         is_sigmoid = layer.activation == "sigmoid"
       else:
-        is_linear = layer.activation.__name__ == "linear"
-        is_softmax = layer.activation.__name__ == "softmax"
-        is_sigmoid = layer.activation.__name__ == "sigmoid"
+        # quantizer objects have no __name__
+        name = getattr(layer.activation, "__name__", None)
+        is_linear = name == "linear"
+        is_softmax = name == "softmax"
+        is_sigmoid = name == "sigmoid"
 
       if is_linear:
         bits = 0
